@@ -138,6 +138,17 @@ class Harness:
         elif r == z3.sat:
             rec["status"] = "violated"
             m = s.model()
+            # prefer a witness the real build can reproduce: where a callee was replaced by its contract,
+            # try to pin the contract's fresh result to what the real callee returns on constant maps
+            pref = getattr(self.eng, "replay_prefs", [])
+            if pref:
+                s.push()
+                for c in pref:
+                    s.add(c)
+                if s.check() == z3.sat:
+                    m = s.model()
+                    rec["witness_pinned_to_constant_maps"] = True
+                s.pop()
             rec["model"] = self.model_values(m)
             rec["_model"] = m
         else:
@@ -145,6 +156,31 @@ class Harness:
             rec["reason"] = s.reason_unknown()
         self.obligations.append(rec)
         return rec
+
+    def robust_model(self, out_or_st, tolerant_claim):
+        """a model that violates the claim by a margin (and, if possible, with contract results pinned); or None"""
+        st = out_or_st.st if isinstance(out_or_st, Outcome) else out_or_st
+        s = z3.Solver()
+        s.set("timeout", self.timeout_ms)
+        for _, a in self.assumptions:
+            s.add(a)
+        for c in st.pc:
+            s.add(c)
+        s.add(z3.Not(tolerant_claim))
+        t = time.time()
+        best = None
+        pref = getattr(self.eng, "replay_prefs", [])
+        if pref:
+            s.push()
+            for c in pref:
+                s.add(c)
+            if s.check() == z3.sat:
+                best = s.model()
+            s.pop()
+        if best is None and s.check() == z3.sat:
+            best = s.model()
+        self.solver_time += time.time() - t
+        return best
 
     def reachable(self, out_or_st, cond=True, name="reach"):
         """vacuity witness: the path (and cond) is satisfiable"""
@@ -160,6 +196,8 @@ class Harness:
         t = time.time()
         r = s.check()
         self.solver_time += time.time() - t
+        if r == z3.unknown:
+            return None, None
         return r == z3.sat, (s.model() if r == z3.sat else None)
 
     def model_values(self, m):
@@ -193,6 +231,8 @@ class Harness:
             "unknown": sum(1 for o in self.obligations if o["status"] == "unknown"),
             "solver_time_s": round(self.solver_time, 3),
             "feasibility_queries": self.eng.stats["feas_queries"],
+            "feasibility_unknown": self.eng.stats.get("feas_unknown", 0),
+            "feasibility_assumed_without_query": self.eng.stats.get("feas_assumed", 0),
             "feasibility_time_s": round(self.eng.stats["feas_time"], 3),
             "paths": self.eng.stats["paths"],
             "merges": self.eng.stats["merges"],
